@@ -65,7 +65,21 @@ def seeds():
         'word': pfile.write([R(0x70, 1, 2, 0x10, b'\xff\x3f\x00\x00'), R(0x76, 1, 4, 0, b'\x01\x02\x03\x04')]),
         'm6800': pfile.write([R(0x61, 1, 1, 0x100, bytes.fromhex('8601b70010 20fe bd0110 39 7e0100')), E(0x100)]),
     }
+    s['reloc'] = reloc_file()
+    s['rdata'] = reloc_file(rdata=True)
     return s
+
+
+def reloc_file(counts=(1, 1, 6), pos=(0, 3), strings=b'ab\0cd\0', rdata=False):
+    """a code file with a relocation-info record ($85: three 32-bit counts, reloc entries, export entries, name strings) in front of
+    / attached to a data record; counts and string positions are given separately so that they can disagree with the contents"""
+    import struct
+    body = struct.pack('<III', *[c & 0xffffffff for c in counts])
+    body += struct.pack('<QII', 0x100, pos[0] & 0xffffffff, 0x10)          # one relocation entry: address, name position, type
+    body += struct.pack('<IIQ', pos[1] & 0xffffffff, 0, 0x1234)            # one export entry: name position, flags, value
+    body += strings
+    data = bytes([0x82 if rdata else 0x81, 0x41, 1, 1]) + struct.pack('<IH', 0x100, 4) + b'\x01\x02\x03\x04'
+    return b'\x89\x14' + (data + b'\x85' + body if rdata else b'\x85' + body + data) + b'\x00verif'
 
 
 TOOLS = {
@@ -132,9 +146,24 @@ def subspaces(tier):
                 for n in range(len(seed) + 1):
                     yield {'k': 'file', 'tool': tool, 'seed': sname, 'mut': ['trunc', n]}
                 for off in range(max(0, len(seed) - 6)):
-                    for v in (0, 1, 0x7f, 0x80, 0x81, 0xff):
+                    for v in (0, 1, 0x7f, 0x80, 0x81, 0x85, 0xff):
                         if seed[off] != v:
                             yield {'k': 'file', 'tool': tool, 'seed': sname, 'mut': ['sub', off, v]}
+        # field edits of the relocation-info record: each count and each name position over the 32-bit boundary values
+        edge = [0, 1, 2, 5, 6, 7, 0x03ffffff, 0x04000000, 0x0fffffff, 0x10000000, 0x3fffffff, 0x40000000, 0x7fffffff, 0x80000000, 0xfffffff0, 0xffffffff]
+        for tool in TOOLS:
+            for rdata in (0, 1):
+                for i in range(3):
+                    for v in edge:
+                        c = [1, 1, 6]
+                        c[i] = v
+                        yield {'k': 'file', 'tool': tool, 'seed': 'reloc', 'mut': ['reloc', c, [0, 3], rdata]}
+                for i in range(2):
+                    for v in edge:
+                        ps = [0, 3]
+                        ps[i] = v
+                        yield {'k': 'file', 'tool': tool, 'seed': 'reloc', 'mut': ['reloc', [1, 1, 6], ps, rdata]}
+                yield {'k': 'file', 'tool': tool, 'seed': 'reloc', 'mut': ['reloc-unterminated', [1, 1, 5], [0, 3], rdata]}
     subs.append(('5:code-file-prefixes-and-substitutions', filefaults()))
     subs.append(('5:dasl-images', dasl_cases(q)))
     return subs
@@ -300,7 +329,12 @@ def evaluate(case):
     if k == 'file':
         seed = seeds()[case['seed']]
         mut = case['mut']
-        data = seed[:mut[1]] if mut[0] == 'trunc' else seed[:mut[1]] + bytes([mut[2]]) + seed[mut[1] + 1:]
+        if mut[0] == 'reloc':
+            data = reloc_file(tuple(mut[1]), tuple(mut[2]), rdata=bool(mut[3]))
+        elif mut[0] == 'reloc-unterminated':
+            data = reloc_file(tuple(mut[1]), tuple(mut[2]), strings=b'ab\0cd', rdata=bool(mut[3]))
+        else:
+            data = seed[:mut[1]] if mut[0] == 'trunc' else seed[:mut[1]] + bytes([mut[2]]) + seed[mut[1] + 1:]
         name, args = TOOLS[case['tool']]()
 
         def run(v, to=4):
